@@ -15,11 +15,14 @@ package c15
 
 import (
 	"fmt"
+	simplejson "github.com/bitly/go-simplejson"
+	"github.com/ozontech/file.d/pipeline/doif"
 	"runtime"
 	"runtime/debug"
 	"sort"
 	"strings"
 	"sync"
+	"sync/atomic"
 	"testing"
 	"time"
 
@@ -103,6 +106,14 @@ type Case struct {
 	// (after recording it like the output would): what the action under test emitted is judged all the
 	// same, but the joined event is now finalized by a discard inside Propagate instead of by the output
 	DiscardAfterMod int `json:"discard_after_mod,omitempty"`
+	// Selector (join / join_template): the action under test carries a selector on the field "sel" == "1",
+	// written as match_fields or as a do_if rule. An idle action is skipped by the events it does not
+	// select (they pass unchanged); an action that is in the middle of a run receives every event of the
+	// stream, selected or not, because only the action itself can end its run.
+	Selector string `json:"selector,omitempty"` // "" | match_fields | do_if
+	// DeferOut > 0: the output keeps up to that many events before it encodes and commits the oldest one,
+	// like a batching output whose worker encodes after Out returned (flushed every 5 ms as well)
+	DeferOut int `json:"defer_out,omitempty"`
 
 	Sources []Source `json:"sources"`
 
@@ -208,6 +219,7 @@ func escapeJSON(s string, style int) string {
 // ------------------------------------------------------------------ execution
 
 type outRec struct {
+	Seq    int64  `json:"-"` // arrival order at the end of the chain (the content may be taken later)
 	Source uint64 `json:"source"`
 	Doc    string `json:"doc"`
 	AtUs   int64  `json:"at_us"` // virtual microseconds since the pipeline was started
@@ -233,6 +245,7 @@ type execResult struct {
 }
 
 type harness struct {
+	seq   atomic.Int64
 	c     *Case
 	mu    sync.Mutex
 	res   *execResult
@@ -254,20 +267,72 @@ func (i *hInput) Commit(*pipeline.Event) {
 }
 
 type hOutput struct {
-	h   *harness
-	ctl pipeline.OutputPluginController
+	h       *harness
+	ctl     pipeline.OutputPluginController
+	qmu     sync.Mutex
+	queue   []deferred
+	stopped atomic.Bool
 }
 
 func (o *hOutput) Start(_ pipeline.AnyConfig, params *pipeline.OutputPluginParams) {
 	o.ctl = params.Controller
+	if o.h.c.DeferOut > 0 {
+		// the "flush timeout" of the deferring output: whatever waits is encoded and committed every
+		// 5 (virtual) ms. Needed for liveness, not only at the end: once a processor has left a stream
+		// the stream is handed out again only after its last event was committed.
+		go func() {
+			for !o.stopped.Load() {
+				time.Sleep(5 * time.Millisecond)
+				o.flush()
+			}
+		}()
+	}
 }
-func (o *hOutput) Stop() {}
+func (o *hOutput) Stop() { o.stopped.Store(true) }
 func (o *hOutput) Out(e *pipeline.Event) {
+	if o.h.c.DeferOut > 0 {
+		// arrival time now, content when the "worker" gets to it
+		o.qmu.Lock()
+		o.queue = append(o.queue, deferred{e, time.Since(o.h.start).Microseconds(), o.h.nextSeq()})
+		var due []deferred
+		for len(o.queue) > o.h.c.DeferOut {
+			due = append(due, o.queue[0])
+			o.queue = o.queue[1:]
+		}
+		o.qmu.Unlock()
+		for _, d := range due {
+			o.emit(d.e, d.atUs, d.seq)
+		}
+		return
+	}
+	o.emit(e, time.Since(o.h.start).Microseconds(), o.h.nextSeq())
+}
+
+type deferred struct {
+	e    *pipeline.Event
+	atUs int64
+	seq  int64
+}
+
+func (h *harness) nextSeq() int64 { return h.seq.Add(1) }
+
+func (o *hOutput) emit(e *pipeline.Event, atUs, seq int64) {
 	doc := e.Root.EncodeToString()
 	o.h.mu.Lock()
-	o.h.res.outs = append(o.h.res.outs, outRec{Source: uint64(e.SourceID), Doc: doc, AtUs: time.Since(o.h.start).Microseconds()})
+	o.h.res.outs = append(o.h.res.outs, outRec{Seq: seq, Source: uint64(e.SourceID), Doc: doc, AtUs: atUs})
 	o.h.mu.Unlock()
-	o.ctl.Commit(e) // synchronous output (bubble rule)
+	o.ctl.Commit(e) // commits from the calling goroutine (bubble rule: no batcher mutex)
+}
+
+// flush encodes and commits what is still queued (input exhausted).
+func (o *hOutput) flush() {
+	o.qmu.Lock()
+	due := o.queue
+	o.queue = nil
+	o.qmu.Unlock()
+	for _, d := range due {
+		o.emit(d.e, d.atUs, d.seq)
+	}
 }
 
 // passAction never holds, collapses or discards.
@@ -295,7 +360,7 @@ func (a tapDiscard) Do(e *pipeline.Event) pipeline.ActionResult {
 		return pipeline.ActionPass
 	}
 	a.h.mu.Lock()
-	a.h.res.outs = append(a.h.res.outs, outRec{Source: uint64(e.SourceID), Doc: doc, AtUs: time.Since(a.h.start).Microseconds()})
+	a.h.res.outs = append(a.h.res.outs, outRec{Seq: a.h.nextSeq(), Source: uint64(e.SourceID), Doc: doc, AtUs: time.Since(a.h.start).Microseconds()})
 	a.h.res.tapDiscards++
 	a.h.mu.Unlock()
 	return pipeline.ActionDiscard
@@ -383,7 +448,23 @@ func (h *harness) actionInfo(settings *pipeline.Settings) (*pipeline.ActionPlugi
 		cp.Config = cfg
 		cp.Type = c.Mode
 		cp.Factory = h.watchedFactory(info.Factory)
-		return &pipeline.ActionPluginStaticInfo{PluginStaticInfo: &cp, MatchMode: pipeline.MatchModeAnd}, nil
+		info2 := &pipeline.ActionPluginStaticInfo{PluginStaticInfo: &cp, MatchMode: pipeline.MatchModeAnd}
+		switch c.Selector {
+		case "match_fields":
+			info2.MatchConditions = pipeline.MatchConditions{{Field: []string{"sel"}, Values: []string{"1"}}}
+		case "do_if":
+			// built the way fd.extractDoIfChecker does: simplejson -> map -> doif.NewFromMap
+			sj, err := simplejson.NewJson([]byte(`{"op":"equal","field":"sel","values":["1"]}`))
+			if err != nil {
+				return nil, err
+			}
+			ch, err := doif.NewFromMap(sj.MustMap())
+			if err != nil {
+				return nil, err
+			}
+			info2.DoIfChecker = ch
+		}
+		return info2, nil
 	case modeK8s:
 		// fd.setupInput: the additional action "k8s-multiline" gets the k8s INPUT's parsed config
 		inInfo := &pipeline.PluginStaticInfo{Type: "k8s", Factory: k8s.Factory}
@@ -493,9 +574,10 @@ func execute(c *Case) *execResult {
 			MatchMode: pipeline.MatchModeAnd,
 		})
 	}
+	outp := &hOutput{h: h}
 	p.SetOutput(&pipeline.OutputPluginInfo{
 		PluginStaticInfo:  &pipeline.PluginStaticInfo{Type: "verif_output"},
-		PluginRuntimeInfo: &pipeline.PluginRuntimeInfo{Plugin: &hOutput{h: h}, ID: "verif_output"},
+		PluginRuntimeInfo: &pipeline.PluginRuntimeInfo{Plugin: outp, ID: "verif_output"},
 	})
 	res.feedAtUs = make([][]int64, len(c.Sources))
 	res.accepted = make([][]bool, len(c.Sources))
@@ -536,9 +618,14 @@ func execute(c *Case) *execResult {
 	wg.Wait()
 	// every held run is flushed by a time-out within event_timeout + one heartbeat period
 	time.Sleep(time.Duration(c.EventTimeoutMs+timeoutSlackMs+1000) * time.Millisecond)
+	if c.DeferOut > 0 {
+		outp.flush()
+		time.Sleep(10 * time.Millisecond)
+	}
 	h.mu.Lock()
 	outs := append([]outRec{}, res.outs...)
 	h.mu.Unlock()
+	sort.SliceStable(outs, func(i, j int) bool { return outs[i].Seq < outs[j].Seq })
 	p.Stop()
 	p.VerifWakeProcessors()
 	res.outs = outs
